@@ -6,6 +6,7 @@ import IrefVerif.Lemmas.PopList
 import IrefVerif.Lemmas.ValidWF
 import IrefVerif.Lemmas.PathHandleRef
 import IrefVerif.Lemmas.SymAppend
+import IrefVerif.Lemmas.SymRel
 
 /-!
 # C10 — path editing has list semantics and touches nothing but the path
@@ -226,6 +227,71 @@ theorem normalized_abs_state (fa : Bool) (p : Text) (hp : PathText p) (habs : is
   · rcases realises_cases hr with h | h
     · exact ⟨0, by rw [h]; rfl⟩
     · exact ⟨1, by rw [h]; rfl⟩
+
+/-! ## symbolic operations on a relative path
+
+A relative path that does not follow an authority.  Its literal segments are `L` — the `..`s that
+could not be resolved, then a dot-free list: what a normalised relative path is — possibly behind
+one `.`: the shield of a first segment that is empty or contains `:`, or the lone `.` such a
+shield becomes when the segment behind it is popped (since the repair of F19, `..` takes the lone
+`.` for the empty path). -/
+
+/-- **`symbolic_push` on a relative path**: `.` changes nothing; `..` removes the last segment of
+`L`, and is appended when `L` is empty or ends in `..`; any other segment is appended — unless it
+is an empty segment pushed onto an empty list, which the code skips (the class of F15) -/
+theorem symbolic_push_rel (fa atStart : Bool) (v s : Text) (L : List Text) (inv : RInv v L)
+    (hs : cSlash ∉ s) (hpt : PathText s)
+    (hskip : (s != segDot && s != segDotDot && s.isEmpty && L.isEmpty) = false) :
+    RInv (symPushView false fa atStart v s).1 (Oracle.listSymPush false L s).1 ∧
+      (symPushView false fa atStart v s).2 = (s == segDot || s == segDotDot) :=
+  rinv_step fa atStart v s L inv hs hpt hskip
+
+/-- **`symbolic_append` on a relative path**: the normalised sequence of the result is the walk of
+the appended segments from `L` (climbing above the start leaves `..`s), closed by one empty segment
+when the last appended segment was a dot segment and the path is not empty -/
+theorem symbolic_append_rel (fa atStart : Bool) (v : Text) (L ss : List Text) (inv : RInv v L)
+    (hall : ∀ s ∈ ss, cSlash ∉ s ∧ PathText s) (hsk : Findings.symSkipsGo false L ss = false) :
+    ∃ c, nsegs (symAppendView false fa atStart v ss) = walkR L ss ++ c ∧ (c = [] ∨ c = [[]]) ∧
+      (walkR L ss ≠ [] → c = if lastDot ss then [[]] else []) ∧
+      isAbs (symAppendView false fa atStart v ss) = false := by
+  obtain ⟨i1, f1⟩ := rinv_loop fa atStart ss v false L inv hall hsk
+  have ho : (symAppendGoView false fa atStart v false ss).2 = lastDot ss := by
+    rw [f1]
+    split
+    · rename_i h; subst h; rfl
+    · rfl
+  unfold symAppendView closeView
+  rw [ho]
+  by_cases hc : (lastDot ss && !Path.is_empty (symAppendGoView false fa atStart v false ss).1) = true
+  · simp only [hc, if_true]
+    have i2 := rinv_push fa atStart _ [] _ i1 (by simp) (by intro c hc; cases hc) (by decide) (by decide)
+    simp only [Bool.and_eq_true] at hc
+    exact ⟨[[]], rinv_nsegs i2, .inr rfl, fun _ => by simp [hc.1], i2.rel⟩
+  · have hc' : (lastDot ss && !Path.is_empty (symAppendGoView false fa atStart v false ss).1) = false := by
+      simpa using hc
+    simp only [hc', Bool.false_eq_true, if_false]
+    refine ⟨[], by rw [List.append_nil]; exact rinv_nsegs i1, .inl rfl, fun hne => ?_, i1.rel⟩
+    by_cases hl : lastDot ss = true
+    · rw [hl] at hc'
+      have hem : Path.is_empty (symAppendGoView false fa atStart v false ss).1 = true := by simpa using hc'
+      rw [is_empty_rel i1.rel] at hem
+      have hv : (symAppendGoView false fa atStart v false ss).1 = [] := by simpa using hem
+      rw [hv] at i1
+      exact absurd (rinv_nil i1) hne
+    · simp [hl]
+
+/-- a normalised relative path is such a state -/
+theorem normalized_rel_state (fa atStart : Bool) (p : Text) (hp : PathText p) (hrel : isAbs p = false) :
+    RInv (normView fa atStart p) (nsegs p) := by
+  obtain ⟨hr, ha⟩ := normView_realises fa atStart p hp
+  refine ⟨by rw [ha]; exact hrel, pathText_normView _ _ _ hp, ?_, realises_cases hr⟩
+  unfold nsegs; rw [hrel]; exact semiNormal_nsegsOf _
+
+/-- non-vacuity and the witness of F19: `./a:b` is such a state with `L = ["a:b"]`; two `..` walk to
+`[".."]`, and the model of the repaired `symbolic_append` writes `../` -/
+example : walkR [[0x61, 0x3A, 0x62]] [segDotDot, segDotDot] = [segDotDot] ∧
+    Findings.symSkipsGo false [[0x61, 0x3A, 0x62]] [segDotDot, segDotDot] = false ∧
+    symAppendView false false true [0x2E, 0x2F, 0x61, 0x3A, 0x62] [segDotDot, segDotDot] = [0x2E, 0x2E, 0x2F] := by decide
 
 /-- non-vacuity: a history through one handle inside a URI, computed by the model -/
 example : (pathRun (Ref.path_mut [0x73, 0x3A, 0x2F, 0x2F, 0x68, 0x3F, 0x71])
